@@ -142,6 +142,7 @@ def step1 (s : St) (line : String) : St × String :=
   match ws with
   | ["pargc"] => (s, "ok")
   | "ballast" :: _ => (s, "ok")
+  | "substids" :: _ => (s, "ok")
   | ["dropballast"] => (s, "ok")
   | ["nodes"] => (s, "-")
   | "mgr" :: rest =>
